@@ -115,13 +115,13 @@ Lemma constants_nl :
 Proof. repeat split; repeat constructor. Qed.
 
 (* the token-level statement for the concrete stack: what remains to be assumed is about the lexer
-   stack only (chunking of the reference tokenizer, faithful echo of the lexer model) *)
+   stack only (chunking of the reference tokenizer, token-faithful echo of the lexer model) *)
 Lemma build_code_tokens_now (T : Type) (sigt : bytes -> option (list T)) :
   (forall a b ta tb, ends_with_nl a = true -> sigt a = Some ta -> sigt b = Some tb ->
                      sigt (a ++ b) = Some (ta ++ tb)) ->
   (forall a ta, sigt a = Some ta -> sigt (a ++ [10]) = Some ta) ->
   sigt [] = Some [] ->
-  (forall ls q, from_lines ls = Ok q -> concat (echo_lines q) = concat ls) ->
+  (forall ls q, from_lines ls = Ok q -> sigt (concat (echo_lines q)) = sigt (concat ls)) ->
   forall cwd fs lua_path fuel main_path main_content out,
   build_code_now cwd fs lua_path fuel main_path main_content = Ok out ->
   exists r pk, build_lua_now cwd fs lua_path fuel main_path main_content = Ok (r, pk) /\
